@@ -39,7 +39,7 @@ structure St where
   pendK : List (Int × Change) := []
   pendE : List (Int × Change) := []
   opsSinceObs : Nat := 0
-  lists : List (Int × List (Int × Int)) := []   -- table level: list ↦ (entity, track) in order
+  lists : List (Int × List (Int × Int × Int)) := []   -- table level: list ↦ (entity, track, database uuid tag) in order
   deriving Inhabited
 
 def lookupD {β} (l : List (Int × β)) (k : Int) (d : β) : β := ((l.find? (·.1 == k)).map (·.2)).getD d
@@ -332,10 +332,12 @@ def rawLine (chainsOnly : Bool) (ans : List String) : M Unit := do
         pure (⟨← pInt i, ← pInt p, ← pInt n, title⟩ : Db.Chain.Row Bytes)
       | _ => throw "unparsable Playlist row"
     let pe ← (← parseRows (← field "PlaylistEntity" peT)).mapM fun r => match r with
-      | [i, l, t, n, mr, own] => do
-        if own != "1" then throw s!"C11: PlaylistEntity row {i} carries a foreign database uuid"
+      | [i, l, t, n, mr, tag] => do
+        -- through the crate API every entry carries the library's own uuid (tag 0); the table-level
+        -- histories (chains only) may mix databases
+        if !chainsOnly && tag != "0" then throw s!"C11: PlaylistEntity row {i} carries a foreign database uuid"
         if mr != "0" then throw s!"C11: PlaylistEntity row {i} has membershipReference {mr}"
-        pure (⟨← pInt i, ← pInt l, ← pInt n, ← pInt t⟩ : Db.Chain.Row Int)
+        pure (⟨← pInt i, ← pInt l, ← pInt n, ⟨← pInt t, ← pInt tag⟩⟩ : Db.Chain.Row Db.V2.Ent)
       | _ => throw "unparsable PlaylistEntity row"
     let tr ← (← parseRows (← field "Track" trT)).mapM fun r => match r with
       | [i] => pInt i
@@ -353,12 +355,14 @@ def rawLine (chainsOnly : Bool) (ans : List String) : M Unit := do
 /-- table-level entry lists -/
 def peLine (st : St) (cmd ans : List String) : M St := do
   match cmd with
-  | ["pe.add", l, t, f] =>
+  | ["pe.add", l, t, u, f] =>
     let l ← pInt l
     let t ← pInt t
+    let u ← pInt u
     let ok ← succeeded ans
     let cur := lookupD st.lists l []
-    match cur.find? (·.2 == t) with
+    -- an entry's identity is (list, database uuid, track id)
+    match cur.find? (fun x => x.2.1 == t && x.2.2 == u) with
     | some (e, _) =>
       if f == "1" then
         if ok then throw "C09: add_back(throw_if_duplicate) accepted a duplicate entry" else pure st
@@ -370,7 +374,7 @@ def peLine (st : St) (cmd ans : List String) : M St := do
       | none => throw "add_back returned no id"
       | some e =>
         if st.lists.any (fun (_, es) => es.any (·.1 == e)) then throw s!"C09: new entity id {e} collides with an existing entity"
-        pure { st with lists := setK st.lists l (cur ++ [(e, t)]) }
+        pure { st with lists := setK st.lists l (cur ++ [(e, t, u)]) }
   | ["pe.remove", l, e] =>
     let l ← pInt l
     let e ← pInt e
@@ -383,8 +387,8 @@ def peLine (st : St) (cmd ans : List String) : M St := do
   | ["pe.list", l] =>
     let l ← pInt l
     let want := lookupD st.lists l []
-    let wantS := "[" ++ ",".intercalate (want.map fun (e, t) => s!"{e}:{t}") ++ "]"
-    let wantT := "[" ++ ",".intercalate (want.map fun (_, t) => toString t) ++ "]"
+    let wantS := "[" ++ ",".intercalate (want.map fun (e, t, u) => s!"{e}:{t}:{u}") ++ "]"
+    let wantT := "[" ++ ",".intercalate (want.map fun (_, t, _) => toString t) ++ "]"
     if ans != ["ok", wantS, wantT] then
       throw s!"C09: get_for_list/track_ids of list {l} = {" ".intercalate (ans.drop 1)}, entries added and not removed, in order: {wantS} {wantT}"
     pure st
